@@ -438,6 +438,10 @@ func runCheck(id, tier string) int {
 	}
 	sort.Strings(vkeys)
 	nViol := 0
+	maxPrinted := 15
+	if n, err := strconv.Atoi(os.Getenv("VF_MAX_PRINT")); err == nil {
+		maxPrinted = n
+	}
 	var knownSeen []string
 	exit := 0
 	for _, k := range vkeys {
@@ -469,10 +473,16 @@ func runCheck(id, tier string) int {
 			continue
 		}
 		nViol++
+		exit = 1
+		if nViol > maxPrinted {
+			continue
+		}
 		path := writeReplay(id, tier, v, runs)
 		fmt.Printf("VIOLATION property=%s replay=%s\n", id, path)
 		fmt.Printf("  key: %s\n  %s\n", v.Key, indent(v.Message))
-		exit = 1
+	}
+	if nViol > maxPrinted {
+		fmt.Printf("... and %d more violation classes (VF_MAX_PRINT to see them)\n", nViol-maxPrinted)
 	}
 	for _, l := range knownSeen {
 		fmt.Println(l)
@@ -486,7 +496,7 @@ func runCheck(id, tier string) int {
 	cov["distinct_nontrivial"] = len(outcomesSeen)
 	cov["rule"] = def.Rule
 	cov["samples"] = samples
-	cov["states"] = decisions + execs
+	cov["states"] = decisions + execs + cases
 	cov["transitions"] = transitions + cases
 	cov["traces_validated_against_impl"] = execs + cases
 	cov["executions_including_sharding_prelude"] = totalExecs
